@@ -1,4 +1,5 @@
 """Replayable automaton / transducer / composition operations on the real code (C09-C13, C17)."""
+import itertools
 from fractions import Fraction
 
 import usersemirings as us
@@ -183,6 +184,16 @@ def f_wop(a):
         e["fn"], e["posts"], e["B"] = name, [], a["B"]
     e["out"] = wfsa_proj(out, expect_R=m.R)
     e["fname"] = name
+    # the library's own evaluation of the machine it built (through its epsilon removal), on a few strings
+    calls = []
+    strs = [s for n in range(min(a["L"], 2) + 1) for s in itertools.product(a["sigma"], repeat=n)]
+    for s in strs[:: max(1, len(strs) // 4)][:4]:
+        try:
+            calls.append([list(s), enc_w(m.R, coerce(m.R, out(ustr(s))))])
+        except Exception:  # noqa: BLE001 - (a divergent epsilon cycle: the structural judgement above still applies)
+            pass
+    if calls:
+        e["calls"] = calls
     return e
 
 
